@@ -53,7 +53,9 @@ def run(ctx):
     for t in traces:
         ctx.count()
         ctx.distinct(str(t["cfg"]["argv"]) + str([(e["t"], bytes(e["raw"]).split(b" ")[1][:8]) for e in t["ev"] if e["e"] == "cmd"]))
-    FC.validate(ctx, traces, ("C12.", "C09.indication-outside-tick"), "TV FakeTrxTrace (power/clock histories on the real Application)")
+    # readiness (tuned or hopping) decides whether a POWERON succeeds: a wrong effect of a command on
+    # the tuning / hopping state is C12's as well
+    FC.validate(ctx, traces, ("C12.", "C09.indication-outside-tick", "C05.effect.hopping", "C05.effect.rx", "C05.effect.tx"), "TV FakeTrxTrace (power/clock histories on the real Application)")
     ctx.sample(dict(argv=traces[0]["cfg"]["argv"], wire=[{k: v for k, v in w.items() if k != "ports"} for w in traces[0]["cfg"]["wire"]],
                     events=[(e["e"], e.get("t"), bytes(e.get("raw", [])).decode("latin1")[:30]) for e in traces[0]["ev"][:12]]))
     ctx.rule = ("random histories of POWERON/POWEROFF/RXTUNE/TXTUNE/SETFH, queued bursts and ticks addressed to any transceiver of "
